@@ -83,6 +83,7 @@ func checkConstIndexGuarded(p *Prog, r *Report, rule string, pkgs ...string) {
 
 func runC19(p *Prog, r *Report, tier string) {
 	checkConstIndexGuarded(p, r, "R-PANIC.index", "pkg/kafka/producer")
+	checkSaramaConfig(p, r, "R-OWNER.producer-config")
 	pub := p.Fn("(*pkg/kafka/producer.KafkaProducer).PublishIPFIXMessages")
 	// the sender is found by role: the function of pkg/kafka/producer that sends on producer.Input()
 	var snd *ssa.Function
@@ -496,4 +497,52 @@ func sliceArrayLen(al *ssa.Alloc) int64 {
 	var n int64
 	fmt.Sscanf(s, "*[%d]", &n)
 	return n
+}
+
+// checkSaramaConfig: the producer's sarama configuration is the library default plus an audited set of fields (version,
+// success/error reporting, TLS). Any other field the producer sets is not vouched for: limits such as
+// Producer.MaxMessageBytes, Producer.RequiredAcks, Flush.*, Retry.* decide whether a record that was handed to the
+// producer is published at all (a lowered size limit makes sarama reject large flow messages locally).
+func checkSaramaConfig(p *Prog, r *Report, rule string) {
+	f := p.Fn("(*pkg/kafka/producer.KafkaProducer).InitSaramaProducer")
+	if f == nil {
+		r.Undecided(rule, "anchor: InitSaramaProducer", "pkg/kafka/producer/kafka.go", "not found")
+		return
+	}
+	allowed := map[string]bool{"Version": true, "Producer.Return.Successes": true, "Producer.Return.Errors": true, "Net.TLS.Config": true, "Net.TLS.Enable": true}
+	n := 0
+	eachInstr(f, func(in ssa.Instruction) {
+		st, ok := in.(*ssa.Store)
+		if !ok {
+			return
+		}
+		// path of field selections down from the *sarama.Config
+		var path []string
+		v := st.Addr
+		for {
+			fa, ok := v.(*ssa.FieldAddr)
+			if !ok {
+				break
+			}
+			_, fn, _, ok2 := fieldOf(fa)
+			if !ok2 {
+				break
+			}
+			path = append([]string{fn}, path...)
+			v = fa.X
+		}
+		if len(path) == 0 || !strings.Contains(typeName(v.Type()), "sarama.Config") {
+			return
+		}
+		n++
+		name := strings.Join(path, ".")
+		if allowed[name] {
+			r.OK(rule, fnKey(f)+": sets sarama Config."+name, p.instrPos(in), "audited field", true)
+		} else {
+			r.Undecided(rule, fnKey(f)+": sets sarama Config."+name, p.instrPos(in), "this configuration field is not in the audited set: the check cannot vouch that every record handed to the producer is still published (size limits, acknowledgement and retry settings change that)")
+		}
+	})
+	if n < 3 {
+		r.Undecided(rule, fnKey(f)+": stores into the sarama configuration", p.pos(f.Pos()), fmt.Sprintf("found %d, expected at least Version and the two Return flags", n))
+	}
 }
